@@ -3,13 +3,26 @@
 Ops
   parse_numbers s=<string> <0|1>                         util.parse_numbers(string, is_date)
   parse_numbers_sub s=<string> <0|1>                     same, run in a subprocess with a 5 s timeout (reply HANG)
-  argv F=<valid inputs> C=<cfg~tok|tok;…> A=<tok|tok|…>    verif.driver.run(["verif"] + tokens)
-  argvbad <kind> F=… C=… A=…                             same call; <kind> names the documented rejection
+  argv F=<valid inputs> C=<cfg~tok|tok;…> A=<tok|tok|…> [D=<obs>;<fcst>;<thresholds>;<quantiles>;<fields>] [B=<name>:<class>|…]
+                                                         verif.driver.run(["verif"] + tokens)
+  argvbad <kind> F=… C=… A=… [D=…] [B=…]                 same call; <kind> names the documented rejection
+                                                         (bad-file:<class> = an input file of that class)
+  clilist <flags> T=<times> L=<id:lat:lon:elev;…> R=<thresholds> Q=<quantiles> S=<scenario json>
+                                                         the REAL driver with the REAL Data on generated text files,
+                                                         --list-* options; reply = the escaped standard output
 
-The real driver is run in-process in a private temp directory; `verif.data.Data` is replaced by a
-recorder that keeps the constructor arguments and returns a stub dataset, the entry points of
-`verif.output.Output` (plot/text/csv/map/…) are replaced by a recorder that keeps the attributes
-`driver.run` itself assigned on the output object.  Nothing of /repo is edited.
+argv / argvbad: the real driver is run in-process in a private temp directory; `verif.data.Data` is replaced by a
+recorder that keeps the constructor arguments and returns a stub dataset (whose content is the D= token: obs and
+fcst values, stored thresholds and quantiles, which of obs / fcst the files have), the entry points of
+`verif.output.Output` (plot/text/csv/map/…) are replaced by a recorder that keeps the attributes `driver.run`
+itself assigned on the output object — for ops with D= including the VALUES of pl.thresholds / pl.quantiles.
+With B= (classified input files: empty, garbage, header only, a .nc name holding text, …) the REAL Data is kept.
+In C=, `^` between `|`-separated tokens is a line break of the config file; blanks, tabs, leading and trailing
+blanks are chosen by `cfg_text` from the tokens.
+clilist: T, L, R, Q are the verified dimensions of the Data object the real run built (captured by wrapping
+`Data.__init__`); the Lean model formats them, the reply of the real run is compared byte for byte; the oracle
+recomputes the verified dimensions from the generated rows and the subset options and formats them itself.
+Nothing of /repo is edited.
 """
 import contextlib
 import datetime
@@ -22,10 +35,10 @@ import zlib
 from fractions import Fraction
 
 import numpy as np
-from common import xr
+from common import xr, xvec, from_xvec, tokens_close
 
 ID = "C13"
-TARGETS = ["Proofs.C13", "Proofs.Lemmas.CalendarLite"]
+TARGETS = ["Proofs.C13", "Proofs.C13List", "Proofs.C13Defaults", "Proofs.Lemmas.CalendarLite"]
 GEN_PREFIXES = ["opt"]
 THEOREMS = {
     "Proofs.C13": ["VerifModel.C13." + t for t in [
@@ -35,25 +48,44 @@ THEOREMS = {
         "C13_rejects_missing_value", "C13_rejects_range_length", "C13_rejects_nonpositive_T",
         "C13_rejects_quantile", "C13_rejects_unknown_axis", "C13_rejects_unknown_aggregator",
         "C13_rejects_bad_file", "C13_rejects_bad_clim", "C13_rejects_missing_config",
-        "C13_rejects_vector"]],
+        "C13_rejects_vector", "C13_rejects_bad_class", "C13_config_lines", "configTokens_join",
+        "splitLines_tokens"]],
+    "Proofs.C13List": ["VerifModel.C13." + t for t in [
+        "C13_list_times", "C13_date_line", "readDate_dateLine", "C13_list_dates", "fixedF_sound", "truncZ_int",
+        "readInt_intChars", "C13_list_locations", "C13_list_thresholds", "C13_list_order"]],
+    "Proofs.C13Defaults": ["VerifModel.C13." + t for t in [
+        "C13_default_thresholds", "C13_data_thresholds", "C13_quantile_count"]],
     "Proofs.Lemmas.CalendarLite": ["VerifModel.ParseNumbers.CalendarLite.calendar_1900_2100"],
 }
 TRUSTED_BASE = [
     "Lean 4.33 kernel; axioms propext, Classical.choice, Quot.sound only",
     "Spec/Options.lean: my reading of driver.show_description() (which flag selects which Data(...) argument / "
-    "output attribute, with which syntax) and of the vector syntax a:b, a:s:b, commas",
+    "output attribute, with which syntax), of the vector syntax a:b, a:s:b, commas, of the warning text 'Missing -r "
+    "<thresholds>. Automatically setting thresholds' (20 evenly spaced values from the smallest to the largest "
+    "observed / forecast value) and of the listing header '    id     lat     lon    elev'",
     "harness/translate.py gen_options: extraction of the flag -> local -> parser table, the Data(...) keyword wiring, "
     "the pl.<attr> assignments, the post-loop validations and the name tables from driver.py/axis.py/aggregator.py/"
     "field.py (validated each run by stream cli.parse: the model interprets the regenerated tables and is compared "
-    "with the real driver on every generated command line)",
+    "with the real driver on every generated command line); the class table of C19 (require_threshold_type, "
+    "min/max_num_thresholds, supports_x/threshold/field) for the default thresholds",
     "hand-written model: control structure of the argument loop, --config pre-pass, the parsers (float()/int() on "
-    "decimal strings, parse_numbers, get_date), order of the early returns — tied by the correspondence streams",
+    "decimal strings, parse_numbers, get_date), order of the early returns, the threshold / quantile default logic "
+    "(Model/ThresholdDefaults.lean on top of C19's Model/Dispatch.lean), the listing formats "
+    "(Model/ListOutput.lean: %d, %02d, %6d, %7.2f, %7.1f, %g on exact rationals) — tied by the correspondence streams",
     "string lexing (split at , and :, float syntax) is executable model code tied by the exhaustive pn.* streams; "
-    "the theorems start from the lexed fields",
+    "the theorems start from the lexed fields; config files are modelled from their lines of tokens on (str.split "
+    "itself is trusted; blanks, tabs and blank lines are exercised by stream cli.parse)",
     "np.arange length = ceil((stop-start)/step) and np.round(.,7) on doubles vs exact rationals (identical on the "
-    "3-decimal grid, checked exhaustively by pn.grid); Python datetime for the calendar (checked on every boundary "
-    "by pn.dates; the model's calendar is proved against the textbook successor on every day 1900-2100)",
-    "the recorder stub that replaces verif.data.Data and the Output entry points inside the harness process",
+    "3-decimal grid, checked exhaustively by pn.grid); np.linspace / np.nanmin / np.nanmax on doubles vs exact "
+    "rationals (compared within 1e-9 relative; counts, NaN-ness and errors exactly); Python datetime for the "
+    "calendar (checked on every boundary by pn.dates; the model's calendar is proved against the textbook "
+    "successor on every day 1900-2100); CPython's % operator (correctly rounded %f / %g, truncating %d) as modelled "
+    "in Model/ListOutput.lean and Base/Decimal.lean, compared byte for byte by stream cli.list",
+    "the recorder stub that replaces verif.data.Data and the Output entry points inside the harness process "
+    "(streams cli.parse, cli.dup, cli.bad, cli.defaults; cli.list and cli.badfile run the real Data); the mapping "
+    "class of file -> accepted / rejected of Model/InputClass.lean is the documented one (a text file in the "
+    "documented format is an input whatever its name, nothing else is), tied by stream cli.badfile; -0.0 is not "
+    "modelled (the generators write no negative zero)",
 ]
 ASSUMPTIONS = [
     "vector fields are decimal strings with at most 3 fractional digits (C13_range); outside that grid the 0.0001 "
@@ -66,29 +98,76 @@ ASSUMPTIONS = [
     "rejected (C13_rejects_date_range; the former hang is still probed in a subprocess with a 5 s timeout)",
     "order invariance is claimed for command lines in which no two option groups assign the same variable",
     "file names do not start with '-' and tokens are non-empty; config files contain no nested --config",
+    "--config: 'Read further arguments from this file' is read as: the tokens of the file FOLLOW the arguments of the "
+    "command line (driver.run appends them), in the order of the --config options; consequently input files named in "
+    "a config file come after every input file of the command line, wherever --config stands (oracle doc_eval and "
+    "metamorphic relation 2 use this reading; C13_config_lines)",
+    "listings: initialisation times are whole seconds of 1900-2100 (C13_list_dates), location ids are integers "
+    "(C13_list_locations states the truncation otherwise), a location has the same lat / lon / elev in every file; "
+    "-tod on a time that is not on a whole hour is not determined by the help text (the oracle accepts both "
+    "readings); -d / -tod that leave no time may list nothing or exit with the error message",
+    "default thresholds: the documented list needs at least one finite observed / forecast value in every field the "
+    "files have and no infinite value (C13_default_thresholds, HasValues); with an all-missing field the code's "
+    "min(nan, x) / min(x, nan) asymmetry is mirrored by the model and not judged by the oracle; where the quantiles "
+    "of a quantile score are kept internally (pl.thresholds) is not documented and not judged",
+    "a comment line consisting of '#' only is an (empty) comment: the file is a valid input; '# x0:' / '# x1:' with a "
+    "missing or non-numeric value make the file invalid (rejected with the error message); bytes that are not UTF-8 "
+    "text are invalid under any name (all four were tracebacks before the repairs fix_garbage / fix_barehash / fix_x0)",
 ]
-RULE = ("pn.grid: every start,end in {-3..3 step .5} u {.1,.25,.9} x step in +-{.1,.25,.5,1,2} as a:s:b, every a:b, "
+RULE = ("cli.list (first): the real driver with the real Data on 1-3 generated text files (2-4 initialisation times "
+        "not all at midnight through date+hour or unixtime columns incl. half hours, odd seconds and dates before "
+        "1970, 2-5 locations with fractional lat/lon/elev whose printed digits depend on half-even rounding of the "
+        "exact double, negative values that round to -0.00, an id wider than its column, a location missing from one "
+        "file, an extra time / lead time in one file, p<t>/q<x> columns differing between the files) with 1-5 --list-* "
+        "flags in random order and 0-3 of -d -t -tod -l -lx -latrange -lonrange -elevrange -o; "
+        "pn.grid: every start,end in {-3..3 step .5} u {.1,.25,.9} x step in +-{.1,.25,.5,1,2} as a:s:b, every a:b, "
         "plus comma mixtures; pn.dates: every month/year/leap boundary of 2011-2013, 1999-2000, 2099-2100 x offsets "
         "x steps {default,1,2,7,30}, and the boundaries of 2012, 2000-03-01, 2100-03-01, 2013-01-01 counted down with steps {-1,-2,-7}; pn.dates.calendar-end: ranges that step outside the years 1-9999 (or stay just inside); pn.malformed: fixed list of malformed strings; cli.parse: command lines drawn "
-        "from the documented grammar (1-2 files, a metric, 0-7 distinct data/computation options with documented "
-        "values, 0-2 appearance options, random order, 30% with 1-2 --config files); cli.dup: same with a repeated "
-        "flag (model correspondence only); cli.bad: one documented rejection per line. An op is non-trivial if the "
-        "reply is not ERR/EXC/help/version and (pn) has >= 2 values or (cli) carries >= 1 data/computation option")
+        "from the documented grammar (0-2 files, a metric incl. the threshold / quantile scores, 0-7 distinct "
+        "data/computation options with documented values, 0-2 appearance options, random order, 35% with 1-2 "
+        "--config files written on several lines (one group per line, several per line, blank lines, tabs, a flag "
+        "and its value on different lines), 40% of those with input file names inside the config) on a stub dataset "
+        "whose content is drawn per op (NaNs, all-missing field, smin = smax, negative range, empty threshold list, "
+        "obs or fcst absent); cli.defaults: 15 metrics / diagrams covering every kind of threshold requirement x "
+        "-r / -q / -type impact / -hist / -x threshold|obs|fcst; cli.dup: same as cli.parse with a repeated flag "
+        "(model correspondence only); cli.bad: one documented rejection per line; cli.badfile: 15 classes of input "
+        "file x {first input, second input, -c, -C} x {-m mae, --list-times} on the real Data. An op is non-trivial "
+        "if the reply is not ERR/EXC/help/version and (pn) has >= 2 values or (cli) carries >= 1 data/computation "
+        "option or a default threshold / quantile list or (cli.list) prints >= 3 lines")
 EXHAUSTIVE = {"quick": True, "thorough": True}
-EXHAUSTIVE_NOTE = ("the decimal grid (pn.grid) and the calendar-boundary set (pn.dates) are enumerated completely in "
-                   "both tiers; command lines (cli.*) are sampled")
+EXHAUSTIVE_NOTE = ("the decimal grid (pn.grid), the calendar-boundary set (pn.dates) and the class x role x command "
+                   "grid of cli.badfile are enumerated completely in both tiers; command lines (cli.*) and listing "
+                   "scenarios (cli.list) are sampled")
 LEVEL_TEXT = ("Lean theorems over a model that interprets option tables regenerated from driver.py on every run: the "
               "a:s:b syntax denotes exactly the documented inclusive progression on the 3-decimal grid (the 0.0001 "
               "fudge is harmless there), date ranges step by civil days (calendar proved against the textbook "
-              "successor for every day 1900-2100), option order and --config placement are irrelevant, every "
+              "successor for every day 1900-2100), option order and --config placement are irrelevant and a config "
+              "file means the same however its tokens are spread over lines, every "
               "documented data/computation flag reaches the documented Data(...) argument / output attribute with "
-              "the documented parser (decide on the regenerated table), and the documented rejections are errors.")
+              "the documented parser (decide on the regenerated table), the documented rejections are errors — "
+              "including every class of invalid input file, as input or climatology; the --list-* output read back "
+              "gives exactly the verified times / dates / location ids (lat, lon, elev within half a unit of the last "
+              "printed decimal) / thresholds / quantiles, one row per value in order; the automatic threshold list is "
+              "20 evenly spaced values from the smallest to the largest observed / forecast value, stored thresholds "
+              "and quantiles are taken as they are, and the quantile-count errors fire exactly outside [min, max].")
 TECHNIQUE = ("Lean 4 proof over a table-interpreting model; tables regenerated from source (translator); "
-             "exhaustive + generated differential correspondence against the real driver with a recording stub; "
-             "independent documented-semantics oracle and metamorphic relations on the real driver")
+             "exhaustive + generated differential correspondence against the real driver with a recording stub and, "
+             "for the listings and the invalid-input classes, the real Data on generated files (byte-exact); "
+             "independent documented-semantics oracle (exact fractions) and metamorphic relations on the real driver")
 
 VALID = ["fa.txt", "fb.txt", "clim.txt"]
 FPART = "F=" + "|".join(VALID)
+# classes of input file the harness creates in its temp dir (stream cli.badfile): class -> file name
+CLASS_FILES = {"good": "g_good.txt", "text-named-nc": "g_text.nc", "missing": "g_missing.txt", "empty": "g_empty.txt",
+               "garbage": "g_garbage.txt", "no-data-column": "g_nodata.txt", "header-only": "g_header.txt",
+               "short-row": "g_short.txt", "nc-garbage": "g_garbage.nc", "nc-binary": "g_binary.nc",
+               "nc-nodims": "g_nodims.nc", "directory": "g_dir", "comment-bare": "g_hash.txt",
+               "comment-x0": "g_x0.txt", "comment-x1": "g_x1.txt"}
+# what the documentation says about each class (never taken from the model): a text file in the documented format is
+# an input whatever its name; everything else is not an input file
+# ("#" alone on a line is a comment without content: the file stays a valid input)
+ACCEPTED_CLASSES = ["good", "text-named-nc", "comment-bare"]
+BPART = "B=" + "|".join("%s:%s" % (n, c) for c, n in CLASS_FILES.items())
 
 # ----------------------------------------------------------------------------------------------
 # documented option grammar (from driver.show_description()); used by the generator and the oracle,
@@ -137,6 +216,21 @@ SPECIAL = {"obsfcst": "ObsFcst", "qq": "QQ", "scatter": "Scatter", "pithist": "P
            "timeseries": "TimeSeries", "performance": "Performance", "marginal": "Marginal"}
 STD_METRICS = ["mae", "rmse", "bias", "corr", "ets", "hit", "stderror"]
 FIELD_METRICS = ["obs", "fcst", "temperature"]
+# metrics whose -r / -q default comes from the data (stream cli.parse with a D= token)
+THR_METRICS = ["bs", "bss", "ign0"]
+Q_METRICS = ["quantilescore", "quantile", "spread", "spreadskillratio", "quantilecoverage"]
+# hand-written from the metric / output descriptions and the help text of -r and -q (never from the model):
+# what a metric needs when -r / -q are absent.  "det": thresholds on the observed / forecast values ("Automatically
+# setting thresholds": 20 evenly spaced values from the smallest to the largest value); "thr": the thresholds the
+# probabilities in the files are stored for; ("q", lo, hi): quantiles ("Use -q to set quantile(s)"), between lo and
+# hi of them (quantilecoverage: a single quantile or an interval; spread / spreadskillratio: "between two quantiles")
+REQ = {"ets": "det", "hit": "det", "bs": "thr", "bss": "thr", "ign0": "thr",
+       "quantilescore": ("q", None, None), "quantile": ("q", None, None), "spread": ("q", 2, 2),
+       "spreadskillratio": ("q", 2, 2), "quantilecoverage": ("q", 1, 2),
+       "freq": "det", "cond": "det", "marginal": "thr"}
+# scores that are defined for a threshold (contingency-table scores, scores of the probability of exceeding a
+# threshold): `-x threshold` is meaningful for them, so `-r` keeps its meaning next to it
+THRESHOLD_AXIS_OK = ["ets", "hit", "bs", "bss", "ign0"]
 
 
 def arity(flag):
@@ -376,11 +470,11 @@ def _val(flag, rng):
     if syn == "axis":
         if flag == "-Tx":
             return rng.choice(["time", "leadtime"])
-        return rng.choice([a for a in DOC_AXES if a != "threshold"])
+        return rng.choice([a for a in DOC_AXES if a != "threshold"] + ["threshold"] * 3)
     if syn == "legend":
         return rng.choice(["A", "A,B", "First_run,Second_run", "Model_1"])
     if syn == "unit":
-        return rng.choice(["0.1,0.9", "0:0.25:1", "0.5", "0,1", "0.1:0.2:0.9"])
+        return rng.choice(["0.1,0.9", "0:0.25:1", "0.5", "0,1", "0.1:0.2:0.9", "0.25,0.75", "0.9"])
     if syn == "str":
         if flag == "-b":
             return rng.choice(DOC_BINS)
@@ -405,8 +499,10 @@ def _cmdline(rng, dup=False):
     groups = []
     r = rng.random()
     hist = None
-    if r < 0.55:
+    if r < 0.4:
         groups.append(["-m", rng.choice(STD_METRICS)])
+    elif r < 0.55:
+        groups.append(["-m", rng.choice(THR_METRICS + Q_METRICS)])
     elif r < 0.75:
         groups.append(["-m", rng.choice(sorted(SPECIAL))])
     elif r < 0.9:
@@ -443,15 +539,22 @@ def _layout(rng, groups, files, with_config):
     rng.shuffle(groups)
     configs = {}
     inline = groups
-    if with_config and groups:
+    files = list(files)
+    if with_config and (groups or files):
         ncfg = rng.choice([1, 1, 2])
         inline = []
         buckets = [[] for _ in range(ncfg)]
         for g in groups:
             w = rng.randint(0, ncfg)
             (inline if w == ncfg else buckets[w]).append(g)
+        # input file names inside a config file (driver.run appends the config tokens to argv, so these files come
+        # after every file of the command line): some of the files, or all of them
+        if files and rng.random() < 0.4:
+            for f in (list(files) if rng.random() < 0.4 else [files[-1]]):
+                files.remove(f)
+                buckets[rng.randrange(ncfg)].append([f])
         for i, b in enumerate(buckets):
-            configs["k%d.cfg" % (i + 1)] = [t for g in b for t in g]
+            configs["k%d.cfg" % (i + 1)] = _cfg_lines(rng, b)
             inline.insert(rng.randint(0, len(inline)), ["--config", "k%d.cfg" % (i + 1)])
     items = list(inline)
     pos = sorted(rng.randint(0, len(items)) for _ in files)
@@ -460,10 +563,102 @@ def _layout(rng, groups, files, with_config):
     return [t for g in items for t in g], configs
 
 
-def mkop(kind, toks, configs, badkind=None):
+def _cfg_lines(rng, groups):
+    """tokens of a config file with `^` line-break markers: one option group per line, several groups per line,
+    blank lines, a group split between its flag and its value"""
+    style = rng.choice(["one", "one", "group", "mixed", "mixed", "split"])
+    out = []
+    if rng.random() < 0.15:
+        out.append("^")
+    for k, g in enumerate(groups):
+        if style == "split" and len(g) == 2 and rng.random() < 0.5:
+            out += [g[0], "^", g[1]]
+        else:
+            out += g
+        if k == len(groups) - 1:
+            break
+        if style == "group" or (style in ("mixed", "split") and rng.random() < 0.6):
+            out.append("^")
+            if rng.random() < 0.2:
+                out.append("^")
+    if rng.random() < 0.3:
+        out.append("^")
+    return out
+
+
+def cfg_tokens(toks):
+    """the arguments a config file contributes: its whitespace-separated tokens, line by line"""
+    return [t for t in toks if t != "^"]
+
+
+def cfg_text(toks):
+    """file content for a token list with `^` line breaks; separators (blanks, tabs), leading and trailing blanks are
+    chosen deterministically from the tokens"""
+    lines, cur = [], []
+    for t in toks:
+        if t == "^":
+            lines.append(cur)
+            cur = []
+        else:
+            cur.append(t)
+    lines.append(cur)
+    h = zlib.crc32("|".join(toks).encode())
+    seps = [" ", " ", "  ", "\t", " \t ", "   "]
+    edge = ["", "", " ", "\t", "  "]
+    out = []
+    for i, l in enumerate(lines):
+        k = (h >> (2 * (i % 14))) + i
+        out.append(edge[k % 5] + seps[(k // 5) % 6].join(l) + edge[(k // 30) % 5])
+    return "\n".join(out) + ("" if h % 4 == 0 else "\n")
+
+
+def mkop(kind, toks, configs, badkind=None, data=None, classes=False):
     c = ";".join("%s~%s" % (n, "|".join(t)) for n, t in sorted(configs.items()))
     head = "argv" if badkind is None else "argvbad %s" % badkind
-    return "%s %s C=%s A=%s" % (head, FPART, c, "|".join(toks))
+    return "%s %s C=%s A=%s" % (head, FPART, c, "|".join(toks)) + (" D=" + data if data else "") + \
+        (" " + BPART if classes else "")
+
+
+# ---- D=: the content of the dataset the stub shows to driver.run
+DGRID = [-4.0, -2.5, -1.0, 0.0, 0.5, 1.0, 2.0, 3.25, 7.0, 10.5, 100.0, -0.125]
+
+
+def _gen_data(rng):
+    """obs;fcst;thresholds;quantiles;fields with NaNs among the values, an all-missing field, smin = smax,
+    negative ranges, an empty threshold list, obs or fcst absent from data.get_fields()"""
+    n = rng.randint(1, 6)
+    r = rng.random()
+    if r < 0.1:
+        v = rng.choice(DGRID)
+        obs, fcst = [v] * n, [v] * rng.randint(1, 3)                    # smin = smax
+    elif r < 0.2:
+        obs = [rng.choice([-4.0, -2.5, -1.0, -0.125]) for _ in range(n)]  # negative range
+        fcst = [rng.choice([-4.0, -2.5, -1.0]) for _ in range(n)]
+    else:
+        obs = [rng.choice(DGRID) for _ in range(n)]
+        fcst = [rng.choice(DGRID) for _ in range(n)]
+    nan = float("nan")
+    if rng.random() < 0.35:
+        obs[rng.randrange(len(obs))] = nan
+    if rng.random() < 0.25:
+        fcst[rng.randrange(len(fcst))] = nan
+    r = rng.random()
+    if r < 0.04:
+        obs = [nan] * len(obs)
+    elif r < 0.08:
+        fcst = [nan] * len(fcst)
+    elif r < 0.1:
+        obs, fcst = [nan] * len(obs), [nan] * len(fcst)
+    thr = rng.choice([[], [], [1.0], [0.5, 1.0, 2.5], [-3.0, 0.0, 10.0], [0.0], [0.25, 0.5, 0.75, 1.0, 7.0]])
+    qua = rng.choice([[], [0.5], [0.1, 0.9], [0.25, 0.75], [0.1, 0.5, 0.9], [0.0, 1.0], [0.9], [0.05, 0.25, 0.75, 0.95]])
+    fields = rng.choice(["of", "of", "of", "of", "of", "o", "f", "-"])
+    return ";".join([xvec(obs), xvec(fcst), xvec(thr), xvec(qua), fields])
+
+
+def parse_data(tok):
+    """D= token -> dict(obs, fcst, thr, qua: lists of floats; fields)"""
+    o, f, t, q, fl = tok.split(";")
+    return {"obs": from_xvec(o), "fcst": from_xvec(f), "thr": from_xvec(t), "qua": from_xvec(q), "fields": fl}
 
 
 def gen_bad(rng):
@@ -516,9 +711,26 @@ def gen_bad(rng):
     cases.append(("list-without-files", ["--list-times"], {}))
     for k, toks, cfg in cases:
         yield "cli.bad", mkop(k, toks, cfg, badkind=k)
+    # every class of file as first input, second input, -c and -C climatology, with a metric and with a listing
+    # (REAL verif.data.Data: an empty file passes get_input and is rejected by Data())
+    for cls, name in CLASS_FILES.items():
+        for tail in (["-m", "mae"], ["--list-times"]):
+            for toks in ([name] + tail, ["fa.txt", name] + tail, ["fa.txt"] + tail + ["-c", name],
+                         ["fa.txt", "-C", name] + tail):
+                if cls in ACCEPTED_CLASSES:
+                    yield "cli.badfile", mkop("argv", toks, {}, classes=True)
+                else:
+                    yield "cli.badfile", mkop("argv", toks, {}, badkind="bad-file:" + cls, classes=True)
+
+
+def gen_list(tier, rng):
+    for k in range(260 if tier == "quick" else 3000):
+        yield "cli.list", _list_op(_list_scenario(rng, k))
 
 
 def gen_ops(tier, rng):
+    for x in gen_list(tier, rng):
+        yield x
     for x in gen_pn(tier, rng):
         yield x
     for x in gen_bad(rng):
@@ -526,12 +738,33 @@ def gen_ops(tier, rng):
     n = 1200 if tier == "quick" else 12000
     for i in range(n):
         groups, files = _cmdline(rng)
-        toks, cfg = _layout(rng, groups, files, rng.random() < 0.3)
-        yield "cli.parse", mkop("argv", toks, cfg)
+        toks, cfg = _layout(rng, groups, files, rng.random() < 0.35)
+        yield "cli.parse", mkop("argv", toks, cfg, data=_gen_data(rng))
     for i in range(n // 8):
         groups, files = _cmdline(rng, dup=True)
         toks, cfg = _layout(rng, groups, files, rng.random() < 0.3)
-        yield "cli.dup", mkop("argv", toks, cfg)
+        yield "cli.dup", mkop("argv", toks, cfg, data=_gen_data(rng))
+    # the default thresholds / quantiles: every kind of requirement x a dataset, with and without -r / -q,
+    # -type impact, -hist, and -x threshold on a metric that does not support it
+    for i in range(n // 3):
+        m = rng.choice(["ets", "hit", "bs", "bss", "ign0", "quantilescore", "quantile", "spread", "spreadskillratio",
+                        "quantilecoverage", "mae", "freq", "cond", "marginal", "obs"])
+        groups = [["-m", m]]
+        r = rng.random()
+        if r < 0.2:
+            groups.append(["-r", _vec(rng)])
+        if rng.random() < (0.5 if m in Q_METRICS else 0.15):
+            groups.append(["-q", _val("-q", rng)])
+        if m == "obs" and rng.random() < 0.7:
+            groups.append([rng.choice(["-hist", "-sort"])])
+        if rng.random() < 0.15:
+            groups.append(["-type", rng.choice(["impact", "impact", "text", "csv"])])
+        if rng.random() < 0.25:
+            groups.append(["-x", rng.choice(["threshold", "threshold", "leadtime", "obs", "fcst"])])
+        if rng.random() < 0.2:
+            groups.append(["-b", rng.choice(DOC_BINS)])
+        toks, cfg = _layout(rng, groups, ["fa.txt", "fb.txt"][:rng.choice([1, 1, 2])], rng.random() < 0.2)
+        yield "cli.defaults", mkop("argv", toks, cfg, data=_gen_data(rng))
 
 
 # ----------------------------------------------------------------------------------------------
@@ -546,12 +779,63 @@ FILE_TEXT = """date     leadtime location  lat   lon   altitude  obs   fcst
 """
 
 
+GARBAGE = bytes([0xff, 0xfe, 0x00, 0x00]) + bytes((37 * k * k + 101 * k + 200) % 256 for k in range(300))
+
+
+def class_content(cls):
+    """-> bytes of the file of that class (None: no file; "dir": a directory; "nc": a NetCDF file)"""
+    if cls in ("good", "text-named-nc"):
+        return FILE_TEXT.encode()
+    if cls == "missing":
+        return None
+    if cls == "empty":
+        return b""
+    if cls in ("garbage", "nc-binary"):
+        return GARBAGE
+    if cls == "no-data-column":
+        return b"date leadtime location lat lon altitude value\n20120101 0 3 50 10 12 3\n"
+    if cls == "header-only":
+        return FILE_TEXT.split("\n")[0].encode() + b"\n"
+    if cls == "short-row":
+        return FILE_TEXT.encode() + b"20120102 6 41 51 11 120 6\n"
+    if cls == "nc-garbage":
+        return b"garbage zzz 123\n%%% 1 2\n@@@@ ~~~~\n"
+    if cls == "nc-nodims":
+        return "nc"
+    if cls == "directory":
+        return "dir"
+    if cls == "comment-bare":
+        return b"#\n" + FILE_TEXT.encode()
+    if cls == "comment-x0":
+        return b"# x0: abc\n" + FILE_TEXT.encode()
+    if cls == "comment-x1":
+        return b"# x1:\n" + FILE_TEXT.encode()
+    raise ValueError(cls)
+
+
 def tmpdir():
     if _TMP[0] is None:
         d = tempfile.mkdtemp(prefix="verif_c13_")
         for f in VALID:
             with open(os.path.join(d, f), "w") as fh:
                 fh.write(FILE_TEXT)
+        for cls, name in CLASS_FILES.items():
+            c = class_content(cls)
+            path = os.path.join(d, name)
+            if c is None:
+                continue
+            if c == "dir":
+                os.mkdir(path)
+            elif c == "nc":
+                import netCDF4
+                nc = netCDF4.Dataset(path, "w")
+                nc.createDimension("x", 3)
+                v = nc.createVariable("obs", "f4", ("x",))
+                v[:] = [1, 2, 3]
+                nc.close()
+            else:
+                with open(path, "wb") as fh:
+                    fh.write(c)
         _TMP[0] = d
         import atexit
         import shutil
@@ -560,21 +844,27 @@ def tmpdir():
 
 
 class _StubData(object):
-    """what driver.run reads from the dataset before it calls the output's entry point"""
+    """what driver.run reads from the dataset before it calls the output's entry point; `content` = the parsed
+    D= token of the op line (None: the fixed legacy content)"""
 
-    def __init__(self, inputs):
-        self.thresholds = np.array([1.0, 2.0])
-        self.quantiles = np.array([0.1, 0.9])
+    def __init__(self, inputs, content=None):
+        self.content = content
+        self.thresholds = np.array(content["thr"] if content else [1.0, 2.0])
+        self.quantiles = np.array(content["qua"] if content else [0.1, 0.9])
         self.locations = []
         self.times = np.array([1325376000.0])
         self.num_inputs = len(inputs)
 
     def get_fields(self):
         import verif.field
-        return [verif.field.Obs(), verif.field.Fcst()]
+        fl = self.content["fields"] if self.content else "of"
+        return ([verif.field.Obs()] if "o" in fl else []) + ([verif.field.Fcst()] if "f" in fl else [])
 
-    def get_scores(self, *a, **k):
-        return np.array([0.0, 1.0])
+    def get_scores(self, field=None, *a, **k):
+        import verif.field
+        if self.content is None:
+            return np.array([0.0, 1.0])
+        return np.array(self.content["fcst"] if field == verif.field.Fcst() else self.content["obs"], float)
 
 
 class Recorder(object):
@@ -589,8 +879,10 @@ class Recorder(object):
 ENTRY_POINTS = ["plot", "text", "csv", "map", "plot_rank", "plot_impact", "plot_mapimpact"]
 
 
-def call_driver(tokens, configs):
+def call_driver(tokens, configs, content=None, real=False):
     """runs verif.driver.run(["verif"] + tokens) in the temp dir with the recorders installed.
+    content: what the stub dataset shows (parsed D= token); real: keep the REAL verif.data.Data (its constructor
+    arguments are still recorded).
     -> (status, recorder, stdout)   status: "ok" | "exit:<code>"; other exceptions propagate"""
     import verif.data
     import verif.driver
@@ -601,13 +893,16 @@ def call_driver(tokens, configs):
             os.remove(os.path.join(d, n))
     for n, toks in configs.items():
         with open(os.path.join(d, n), "w") as fh:
-            fh.write(" ".join(toks) + "\n")
+            fh.write(cfg_text(toks))
     rec = Recorder()
+    real_data = verif.data.Data
 
     def fake_data(inputs, **kw):
         rec.inputs = list(inputs)
         rec.kwargs = kw
-        return _StubData(inputs)
+        if real:
+            return real_data(inputs, **kw)
+        return _StubData(inputs, content)
 
     def hook(self, name, value):
         f = sys._getframe(1)
@@ -634,7 +929,10 @@ def call_driver(tokens, configs):
         verif.output.Output.__setattr__ = hook
         for n in ENTRY_POINTS:
             setattr(verif.output.Output, n, entry(n))
-        with contextlib.redirect_stdout(buf), contextlib.redirect_stderr(io.StringIO()):
+        import warnings
+        with contextlib.redirect_stdout(buf), contextlib.redirect_stderr(io.StringIO()), \
+                np.errstate(all="ignore"), warnings.catch_warnings():
+            warnings.simplefilter("ignore")
             try:
                 verif.driver.run(["verif"] + list(tokens))
             except SystemExit as e:
@@ -659,6 +957,8 @@ def _sstr(s):
 def _num(x):
     if isinstance(x, (int, np.integer)) and not isinstance(x, bool):
         return str(int(x))
+    if x != x or x in (float("inf"), float("-inf")):
+        return xr(float(x))
     return xr(Fraction(repr(float(x))))
 
 
@@ -701,7 +1001,9 @@ def canon(v):
     return "?" + type(v).__name__
 
 
-def describe(status, rec, out):
+def describe(status, rec, out, values=False):
+    """values: report what driver.run assigned to pl.thresholds / pl.quantiles (ops with a D= token) instead of the
+    word `auto` for a default"""
     if status != "ok":
         return "ERR" if status not in ("exit:0", "exit:None") else "EXIT0"
     if rec.kwargs is None:
@@ -727,7 +1029,7 @@ def describe(status, rec, out):
     attrs = []
     for k in OUT_KEYS:
         if k in ("thresholds", "quantiles") and ("Missing '-%s" % ("r" if k == "thresholds" else "q")) in out \
-                and k in rec.sets:
+                and k in rec.sets and not values:
             attrs.append("%s=auto" % k)
         elif k == "show_acc" and "does not support -acc" in out:
             attrs.append("%s=ign" % k)
@@ -742,6 +1044,7 @@ def describe(status, rec, out):
 
 
 def parse_op(op):
+    """-> kind, argv tokens, configs (name -> tokens, `^` = line break)"""
     a = op.split(" ")
     if a[0] == "argvbad":
         kind, a = a[1], [a[0]] + a[2:]
@@ -755,9 +1058,24 @@ def parse_op(op):
     return kind, toks, configs
 
 
-def run_cli(toks, configs):
-    status, rec, out = call_driver(toks, configs)
-    return describe(status, rec, out)
+def parse_extras(op):
+    """the optional tokens after A=: {"D": parsed dataset content | None, "B": True if the classified files are in
+    play (then the real Data is used)}"""
+    a = op.split(" ")
+    rest = a[5:] if a[0] == "argvbad" else a[4:]
+    ex = {"D": None, "B": False}
+    for t in rest:
+        if t.startswith("D="):
+            ex["D"] = parse_data(t[2:])
+        elif t.startswith("B="):
+            ex["B"] = True
+    return ex
+
+
+def run_cli(toks, configs, ex=None):
+    ex = ex or {"D": None, "B": False}
+    status, rec, out = call_driver(toks, configs, content=ex["D"], real=ex["B"])
+    return describe(status, rec, out, values=ex["D"] is not None)
 
 
 SUB_TIMEOUT = 5
@@ -810,10 +1128,375 @@ def impl(op):
             except SystemExit as e:
                 return "ERR" if e.code not in (0, None) else "EXIT0"
         return show_nums(Fraction(repr(float(x))) if not isinstance(x, int) else x for x in r)
+    if a[0] == "clilist":
+        return impl_list(op)
     if a[0] in ("argv", "argvbad"):
         _, toks, configs = parse_op(op)
-        return run_cli(toks, configs)
+        return run_cli(toks, configs, parse_extras(op))
     raise ValueError(op)
+
+
+# ----------------------------------------------------------------------------------------------
+# cli.list: --list-times / --list-dates / --list-locations / --list-thresholds / --list-quantiles on the REAL
+# verif.driver.run with the REAL verif.data.Data, on generated text files
+# ----------------------------------------------------------------------------------------------
+LIST_FLAGS = ["thresholds", "quantiles", "locations", "times", "dates"]          # the order driver.run prints them in
+# (id, lat, lon, altitude) as written into the files: fractional values whose second / first decimal is decided
+# by rounding the EXACT binary value (2.675 -> 2.67, 1.005 -> 1.00, 0.125 -> 0.12, 0.375 -> 0.38, 0.35 -> 0.3,
+# 0.25 -> 0.2, 0.05 -> 0.1), negative values that round to -0.00 / -0.0, an id wider than its column
+L_LOCS = [("3", "50.125", "-10.005", "12.25"), ("41", "-0.001", "0.005", "-0.04"),
+          ("-7", "89.995", "179.995", "1234.56"), ("100", "60.25", "-120.5", "1500"),
+          ("7", "-33.865", "151.215", "0.05"), ("12345", "1.005", "2.675", "0.25"),
+          ("999999", "-89.994999", "-179.999", "-430.55"), ("1234567", "0.125", "0.375", "8848.85"),
+          ("18", "45", "7.5", "0.35"), ("0", "0", "0", "0"), ("250", "-0.005", "-0.015", "-0.05"),
+          ("19", "59.9999", "10.7501", "99.95")]
+L_DATES = [20120101, 20120102, 20120229, 20120301, 20111231, 20130101, 19991231, 20000229, 19700101, 20991231,
+           21001231, 19500615, 19691231]
+L_SECS_H = [0, 21600, 43200, 64800, 10800, 82800, 23400, 1800]       # whole and half hours (date + hour columns)
+L_SECS_U = [0, 1, 59, 3599, 3600, 45296, 86399, 43200, 21600]         # any second of the day (unixtime column)
+L_LEADS = [0, 6, 12, 24]
+L_THR = ["0", "0.5", "1", "2.5", "10", "-3", "1e-05", "123456.7", "1234567", "0.1", "100000", "1000000", "0.25",
+         "999999.5", "-0.5"]
+L_QUA = ["0.1", "0.25", "0.5", "0.75", "0.9", "0.05", "0.95", "0.333", "0", "1"]
+_LCAP = {"on": False}
+_LBASE = [None]
+_WARN = None
+
+
+def _strip_warnings(text):
+    global _WARN
+    if _WARN is None:
+        import re
+        _WARN = re.compile(r"^\x1b\[1;3[13]m(Warning|Error): .*\x1b\[0m$")
+    return "\n".join(l for l in text.split("\n") if not _WARN.match(l))
+
+
+def esc(s):
+    return s.replace("\\", "\\\\").replace("\n", "\\n")
+
+
+def unesc(s):
+    out, i = [], 0
+    while i < len(s):
+        if s[i] == "\\" and i + 1 < len(s):
+            out.append({"n": "\n", "\\": "\\"}.get(s[i + 1], s[i + 1]))
+            i += 2
+        else:
+            out.append(s[i])
+            i += 1
+    return "".join(out)
+
+
+def _ut(date):
+    return (datetime.date(date // 10000, date // 100 % 100, date % 100) - datetime.date(1970, 1, 1)).days * 86400
+
+
+def _list_scenario(rng, k):
+    """1-3 text files with 2-4 initialisation times that are not all at midnight, several locations, p/q columns
+    that differ between the files, a location missing from one file, an extra time in one file; subset options"""
+    nf = rng.choice([1, 2, 2, 3])
+    sub = k % 3 == 2                        # any second of the day: every file carries a unixtime column
+    days = sorted(rng.sample(L_DATES[:10] if rng.random() < 0.85 else L_DATES, rng.randint(1, 3)))
+    pool = L_SECS_U if sub else L_SECS_H
+    inits = set()
+    while len(inits) < rng.randint(2, 4):
+        inits.add((rng.choice(days), rng.choice(pool)))
+    if all(sec == 0 for _, sec in inits):
+        inits.add((days[0], pool[2]))
+    inits = sorted(inits)
+    extra_init = (20140101, pool[3])
+    leads = sorted(rng.sample(L_LEADS, rng.randint(1, 2)))
+    locs = rng.sample(L_LOCS, rng.randint(2, 5))
+    core_t = rng.sample(L_THR, rng.choice([0, 1, 2, 3, 4]))
+    core_q = rng.sample(L_QUA, rng.choice([0, 1, 2, 3]))
+    names = rng.sample(["a.txt", "b.txt", "raw.txt", "kf.txt", "m1", "x.y.txt"], nf)
+    miss_f = rng.randrange(nf) if nf > 1 and rng.random() < 0.4 else None
+    xtra_f = rng.randrange(nf) if rng.random() < 0.4 else None
+    files = []
+    for f in range(nf):
+        mode = "u" if sub or rng.random() < 0.3 else "h"
+        i2 = list(inits) + ([extra_init] if f == xtra_f else [])
+        l2 = list(leads) + ([48] if rng.random() < 0.2 else [])
+        s2 = [s for j, s in enumerate(locs) if not (f == miss_f and j == 1)]
+        if rng.random() < 0.3:
+            s2.append(rng.choice([s for s in L_LOCS if s not in locs]))
+        thr = list(core_t) + [t for t in rng.sample(L_THR, rng.choice([0, 1, 2])) if t not in core_t]
+        qua = list(core_q) + [q for q in rng.sample(L_QUA, rng.choice([0, 1])) if q not in core_q]
+        if f > 0 and rng.random() < 0.15 and thr:
+            thr = thr[1:]                    # one of the common thresholds is absent from this file
+        rng.shuffle(thr)
+        rng.shuffle(qua)
+        idn = rng.choice(["location", "location", "id"])
+        eln = rng.choice(["altitude", "altitude", "elev"])
+        head = ("unixtime" if mode == "u" else "date hour") + " leadtime %s lat lon %s obs fcst" % (idn, eln)
+        head += "".join(" p" + t for t in thr) + "".join(" q" + q for q in qua)
+        rows = []
+        for (d, sec), l, s in itertools.product(i2, l2, s2):
+            tcols = "%d" % (_ut(d) + sec) if mode == "u" else "%d~%s" % (d, dec(Fraction(sec, 3600)))
+            vals = ["%g" % rng.choice([0, 1.5, 3, -2, 7.25]), "%g" % rng.choice([0, 2, 3.5, -1, 6])]
+            vals += ["%g" % rng.choice([0, 0.25, 0.5, 1]) for _ in thr] + ["%g" % rng.choice([-1, 0, 2.5, 4]) for _ in qua]
+            rows.append("~".join([tcols, str(l), s[0], s[1], s[2], s[3]] + vals))
+        rng.shuffle(rows)
+        files.append({"n": names[f], "h": head.replace(" ", "~"), "r": rows})
+    flags = rng.sample(LIST_FLAGS, rng.choice([1, 1, 2, 3, 5]))
+    groups = [["--list-" + x] for x in flags]
+    ids = [s[0] for s in locs]
+    uts = [_ut(d) + sec for d, sec in inits]
+    for opt in rng.sample(["-d", "-t", "-tod", "-l", "-lx", "-latrange", "-lonrange", "-elevrange", "-o"],
+                          rng.choice([0, 0, 1, 1, 2, 3])):
+        if opt == "-d":
+            ds = rng.sample(days + [20140101], rng.randint(1, 2))
+            v = rng.choice([",".join(map(str, ds)), "%d:%d" % (min(days), max(days)), "%d" % days[0],
+                            ymd(datetime.date(days[0] // 10000, days[0] // 100 % 100, days[0] % 100)
+                                - datetime.timedelta(days=1)) + ":2:%d" % days[-1]])
+        elif opt == "-t":
+            v = ",".join(str(x) for x in sorted(rng.sample(uts + [uts[0] + 7], rng.randint(1, len(uts)))))
+        elif opt == "-tod":
+            hs = sorted({sec // 3600 for _, sec in inits} | {rng.choice([0, 6, 12, 18])})
+            v = ",".join(str(h) for h in rng.sample(hs, rng.randint(1, len(hs))))
+        elif opt in ("-l", "-lx"):
+            v = ",".join(rng.sample(ids + ["555"], rng.randint(1, max(1, len(ids) - 1))))
+        elif opt == "-latrange":
+            v = rng.choice(["-90,90", "0,60", "-40,1.005", "50.125,89.995", "-0.001,0.125", "60,61"])
+        elif opt == "-lonrange":
+            v = rng.choice(["-180,180", "0,180", "-130,0.005", "2.675,151.215", "170,171"])
+        elif opt == "-elevrange":
+            v = rng.choice(["-500,9000", "0,100", "0.05,12.25", "1000,2000", "-0.05,0.35", "5000,6000"])
+        else:
+            v = ",".join(str(x) for x in rng.sample(leads + [48, 3], rng.randint(1, 2)))
+        groups.append([opt, v])
+    rng.shuffle(groups)
+    return {"files": files, "args": [t for g in groups for t in g]}
+
+
+def _lbase():
+    if _LBASE[0] is None:
+        import atexit
+        import shutil
+        _LBASE[0] = tempfile.mkdtemp(prefix="verif_c13l_")
+        atexit.register(shutil.rmtree, _LBASE[0], True)
+    return _LBASE[0]
+
+
+def _install_list_capture():
+    import verif.data
+    if getattr(verif.data, "_c13_patched", False):
+        return
+    verif.data._c13_patched = True
+    orig = verif.data.Data.__init__
+
+    def init(self, *a, **k):
+        orig(self, *a, **k)
+        if _LCAP["on"]:
+            _LCAP["data"] = self
+    verif.data.Data.__init__ = init
+
+
+def _run_list(scen, capture=False):
+    """the real driver on the scenario's files -> dict(status ok|exit|exc:<Type>, out, [data])"""
+    import shutil
+    import warnings
+    import verif.driver
+    _install_list_capture()
+    d = tempfile.mkdtemp(dir=_lbase())
+    res = {"status": "ok", "out": ""}
+    cwd = os.getcwd()
+    try:
+        for fl in scen["files"]:
+            with open(os.path.join(d, fl["n"]), "w") as f:
+                f.write(fl["h"].replace("~", " ") + "\n")
+                for r in fl["r"]:
+                    f.write(r.replace("~", " ") + "\n")
+        buf = io.StringIO()
+        _LCAP.clear()
+        _LCAP["on"] = capture
+        try:
+            os.chdir(d)
+            with contextlib.redirect_stdout(buf), contextlib.redirect_stderr(io.StringIO()), \
+                    np.errstate(all="ignore"), warnings.catch_warnings():
+                warnings.simplefilter("ignore")
+                verif.driver.run(["verif"] + [fl["n"] for fl in scen["files"]] + list(scen["args"]))
+        except SystemExit:
+            res["status"] = "exit"
+        except Exception as e:
+            res["status"] = "exc:" + type(e).__name__
+        finally:
+            os.chdir(cwd)
+            _LCAP["on"] = False
+        res["out"] = _strip_warnings(buf.getvalue())
+        if capture and "data" in _LCAP:
+            res["data"] = _LCAP["data"]
+    finally:
+        shutil.rmtree(d, True)
+    return res
+
+
+def _list_op(scen):
+    """run the real code once to capture the verified dimensions of the Data object it built"""
+    import json
+    res = _run_list(scen, capture=True)
+    tok = json.dumps(scen, separators=(",", ":"), ensure_ascii=True)
+    assert " " not in tok
+    flags = ",".join(x for x in LIST_FLAGS if "--list-" + x in scen["args"])
+    data = res.get("data")
+    if data is None:
+        return "clilist %s T=? L=? R=? Q=? S=%s" % (flags, tok)
+    try:
+        T = ",".join("%d" % int(t) for t in data.times) or "-"
+        L = ";".join(":".join(xr(float(v)) for v in (l.id, l.lat, l.lon, l.elev)) for l in data.locations) or "-"
+        R = ",".join(xr(float(v)) for v in data.thresholds) or "-"
+        Q = ",".join(xr(float(v)) for v in data.quantiles) or "-"
+    except Exception:
+        return "clilist %s T=? L=? R=? Q=? S=%s" % (flags, tok)
+    return "clilist %s T=%s L=%s R=%s Q=%s S=%s" % (flags, T, L, R, Q, tok)
+
+
+def lean_op(op):
+    """corpus lines of stream cli.list carry `T=! L=! R=! Q=!`: the verified dimensions are captured from the real run
+    when the line is evaluated (a corpus line must not pin what the code computed on the day it was written)"""
+    if op.startswith("clilist ") and " T=! " in op:
+        return _list_op(_list_scen_of(op))
+    return op
+
+
+def _list_scen_of(op):
+    import json
+    return json.loads(op.split(" ", 6)[6][2:])
+
+
+def impl_list(op):
+    res = _run_list(_list_scen_of(op))
+    return esc(res["out"]) if res["status"] == "ok" else "RUN:" + res["status"]
+
+
+def list_cmdline(scen):
+    return "verif " + " ".join(fl["n"] for fl in scen["files"]) + " " + " ".join(scen["args"])
+
+
+# ---- the oracle: verified dimensions recomputed from the rows, formatted from the documentation
+def _fixed(x, k, w):
+    """'%{w}.{k}f' written out: the exact binary value rounded half-to-even to k decimals (sign kept), right-justified"""
+    from decimal import Decimal, ROUND_HALF_EVEN
+    return format(Decimal(x).quantize(Decimal(1).scaleb(-k), rounding=ROUND_HALF_EVEN), "f").rjust(w)
+
+
+def _civil_of(t):
+    d = datetime.date(1970, 1, 1) + datetime.timedelta(days=t // 86400)
+    return d.year * 10000 + d.month * 100 + d.day
+
+
+def _opt(args, flag):
+    return args[args.index(flag) + 1] if flag in args else None
+
+
+def _list_expect(scen, tod_floor=False, date_trunc=False):
+    """-> ("ERR", why, False) | ("OUT", text, empty_by_day_filter).  tod_floor: -tod read as 'the hour of the day the
+    time falls in' (the documentation does not say what happens to 06:30); date_trunc: the day of a time computed
+    with truncation toward zero (the behaviour of the code before the repair fix_predate, used only to name that failure)"""
+    args = scen["args"]
+    per = []
+    for fl in scen["files"]:
+        head = fl["h"].split("~")
+        col = {n: i for i, n in enumerate(head)}
+        times, leads, locs = set(), set(), {}
+        for r in fl["r"]:
+            w = r.split("~")
+            if "unixtime" in col:
+                t = Fraction(w[col["unixtime"]])
+            else:
+                t = _ut(int(w[col["date"]])) + Fraction(w[col["hour"]]) * 3600
+            assert t.denominator == 1
+            times.add(int(t))
+            leads.add(Fraction(w[col["leadtime"]]))
+            i = float(w[col["location" if "location" in col else "id"]])
+            locs.setdefault(i, (w[col["lat"]], w[col["lon"]], w[col["altitude" if "altitude" in col else "elev"]]))
+        per.append({"times": times, "leads": leads, "locs": locs,
+                    "thr": {float(n[1:]) for n in head if n[0] == "p" and len(n) > 1},
+                    "qua": {float(n[1:]) for n in head if n[0] == "q" and len(n) > 1}})
+    inter = lambda key: set.intersection(*[set(p[key]) for p in per])
+    times, leads, ids = inter("times"), inter("leads"), inter("locs")
+    thr, qua = sorted(inter("thr")), sorted(inter("qua"))
+    v = _opt(args, "-t")
+    if v is not None:
+        times &= {int(x) for x in doc_numbers(v) if x.denominator == 1}
+    v = _opt(args, "-o")
+    if v is not None:
+        leads &= set(doc_numbers(v))
+    first = per[0]["locs"]
+    v = _opt(args, "-l")
+    if v is not None:
+        ids &= {float(x) for x in doc_numbers(v)}
+    v = _opt(args, "-lx")
+    if v is not None:
+        ids -= {float(x) for x in doc_numbers(v)}
+    for flag, j in (("-latrange", 0), ("-lonrange", 1), ("-elevrange", 2)):
+        v = _opt(args, flag)
+        if v is not None:
+            lo, hi = doc_numbers(v)
+            ids = {i for i in ids if lo <= Fraction(first[i][j]) <= hi}
+    if not times:
+        return ("ERR", "no common time", False)
+    if not leads:
+        return ("ERR", "no common lead time", False)
+    if not ids:
+        return ("ERR", "no common location", False)
+    n0 = len(times)
+    v = _opt(args, "-d")
+    if v is not None:
+        dd = set(doc_dates(v))
+        day = (lambda t: _civil_of(int(t / 86400) * 86400)) if date_trunc else _civil_of
+        times = {t for t in times if day(t) in dd}
+    v = _opt(args, "-tod")
+    if v is not None:
+        hh = set(doc_numbers(v))
+        times = {t for t in times if (Fraction(t % 86400 // 3600) if tod_floor else Fraction(t % 86400, 3600)) in hh}
+    times, ids = sorted(times), sorted(ids)
+    out = ""
+    if "--list-thresholds" in args:
+        out += "Thresholds: " + "".join("%g " % x for x in thr) + "\n"
+    if "--list-quantiles" in args:
+        out += "Quantiles: " + "".join("%g " % x for x in qua) + "\n"
+    if "--list-locations" in args:
+        out += "    id     lat     lon    elev\n"
+        for i in ids:
+            lat, lon, elev = [float(x) for x in first[i]]
+            out += "%s %s %s %s\n" % (str(int(i)).rjust(6), _fixed(lat, 2, 7), _fixed(lon, 2, 7), _fixed(elev, 1, 7))
+        out += "\n"
+    if "--list-times" in args:
+        out += "".join("%d\n" % t for t in times) + "\n"
+    if "--list-dates" in args:
+        for t in times:
+            s = t % 86400
+            out += "%d %02d:%02d:%02d\n" % (_civil_of(t), s // 3600, s % 3600 // 60, s % 60)
+        out += "\n"
+    return ("OUT", out, len(times) == 0 and n0 > 0)
+
+
+def judge_list(op, impl_out):
+    scen = _list_scen_of(op)
+    line = list_cmdline(scen)
+    if impl_out.startswith("RUN:exc:") or impl_out.startswith("EXC:"):
+        return ({"kind": "exception", "site": "list", "exc": impl_out.split(":")[-1]},
+                "`%s` raises %s" % (line, impl_out.split(":")[-1]))
+    want = _list_expect(scen)
+    alt = _list_expect(scen, tod_floor=True)
+    if impl_out == "RUN:exit":
+        if want[0] == "ERR" or alt[0] == "ERR" or want[2] or alt[2]:
+            return None
+        return ({"kind": "list-rejected", "site": "list"},
+                "`%s` exits with an error although every verified dimension is non-empty; expected\n%s" % (line, want[1]))
+    got = unesc(impl_out)
+    if want[0] == "ERR":
+        return ({"kind": "list-not-rejected", "site": "list", "why": want[1]},
+                "`%s` lists although there is %s:\n%s" % (line, want[1], got))
+    if got == want[1] or got == alt[1]:
+        return None
+    if "-d" in scen["args"] and got == _list_expect(scen, date_trunc=True)[1]:
+        return ({"kind": "list-output", "site": "dates-pre-1970"},
+                "`%s`: -d keeps the initialisation times of the wrong day before 1970 (the day of a time is computed "
+                "with int(t / 86400), which rounds toward zero)\n  got      %r\n  expected %r" % (line, got, want[1]))
+    return ({"kind": "list-output", "site": "list"},
+            "`%s` does not print the verified dimensions of the files:\n  got      %r\n  expected %r" % (line, got, want[1]))
 
 
 # ----------------------------------------------------------------------------------------------
@@ -839,13 +1522,18 @@ def same(a, b):
         x, y = fa.get(k), fb.get(k)
         if x == y:
             continue
-        if x in ("auto", "ign"):
+        if x in ("auto", "ign") or y == "*":
+            continue
+        if k in ("thresholds", "quantiles") and x is not None and y is not None and tokens_close(x, y):
             continue
         return False, k
     return True, None
 
 
 def cmp(op, impl_out, model_out):
+    if op.startswith("clilist "):
+        # byte-exact; NOCAP = the real run built no dataset (it then must have ended in an error or an exception)
+        return impl_out == model_out or (model_out == "NOCAP" and impl_out.startswith("RUN:"))
     return same(impl_out, model_out)[0]
 
 
@@ -895,7 +1583,7 @@ def doc_value(flag, val):
         v = doc_dates(val)
         return v if v is None or v == "undefined" else show_nums(v)
     if syn == "file":
-        return val if val in VALID else None
+        return val if val in VALID + [CLASS_FILES[c] for c in ACCEPTED_CLASSES] else None
     if syn == "field":
         if val in ("obs", "fcst", "pit"):
             return val
@@ -929,20 +1617,70 @@ def doc_value(flag, val):
     return "undefined"
 
 
-def doc_eval(toks, configs):
-    """-> expected canonical line, or None when the documentation does not determine it"""
-    # --config file: "Read further arguments from this file."
-    full = []
+def inline_config(toks, configs):
+    """--config file: "Read further arguments from this file."  FURTHER arguments: the tokens of the file (all its
+    lines, split at white space) follow the arguments of the command line, in the order of the --config options
+    (ASSUMPTIONS).  -> token list, or None if a config file is missing / unnamed"""
+    full, extra = [], []
     i = 0
     while i < len(toks):
         if toks[i] == "--config":
             if i + 1 >= len(toks) or toks[i + 1] not in configs:
-                return "ERR"
-            full += configs[toks[i + 1]]
+                return None
+            extra += cfg_tokens(configs[toks[i + 1]])
             i += 2
         else:
             full.append(toks[i])
             i += 1
+    return full + extra
+
+
+def doc_defaults(m, opts, vals, content, cls):
+    """the documented values of pl.thresholds / pl.quantiles for metric m on the dataset `content`, computed with
+    exact fractions from the D= token and the hand-written table REQ.
+    -> "ERR" | (thresholds, quantiles) as canonical strings, "*" = the documentation does not say"""
+    need = REQ.get(m)
+    if cls.startswith("Hist"):
+        need = "det"                    # "Plot values as histogram": the bins are thresholds on the values
+    if opts.get("-type") == "impact" and not isinstance(need, tuple):
+        need = "det"                    # the impact plot bins the observed / forecast values
+    thr = vals.get("-r", "-")
+    qua = vals.get("-q", "-")
+    if opts.get("-x") in ("threshold", "obs", "fcst"):
+        if m not in THRESHOLD_AXIS_OK or cls.split(":")[0] in ("Hist", "Sort"):
+            thr = "*"                   # the axis may be ignored with a warning; what then becomes of -r is not
+                                        # documented
+    if isinstance(need, tuple):
+        _, lo, hi = need
+        if "-q" in opts:
+            n = len(doc_numbers(opts["-q"]))
+        else:
+            n = len(content["qua"])
+            qua = show_nums(Fraction(x) for x in content["qua"]) if n else "[]"
+        if (lo is not None and n < lo) or (hi is not None and n > hi):
+            return "ERR"
+        return "*", qua                 # where the quantiles are kept internally is not documented
+    if "-r" in opts:
+        return thr, qua
+    if need == "thr":
+        if not content["thr"]:
+            return "ERR"                # "No thresholds available"
+        return show_nums(Fraction(x) for x in content["thr"]), qua
+    if need == "det":
+        present = [content[k] for k, c in (("obs", "o"), ("fcst", "f")) if c in content["fields"]]
+        finite = [[Fraction(x) for x in v if x == x] for v in present]
+        if not present or any(not v for v in finite):
+            return "*", qua             # no observed / forecast value at all in one of the fields
+        lo, hi = min(min(v) for v in finite), max(max(v) for v in finite)
+        return show_nums(lo + (hi - lo) * Fraction(k, 19) for k in range(20)), qua
+    return thr, qua
+
+
+def doc_eval(toks, configs, content=None):
+    """-> expected canonical line, or None when the documentation does not determine it"""
+    full = inline_config(toks, configs)
+    if full is None:
+        return "ERR"
     items, bad = split_groups(full)
     if bad:
         return "ERR"
@@ -963,7 +1701,7 @@ def doc_eval(toks, configs):
             vals[f] = r
     if "--version" in opts:
         return None if reject else "version"
-    if reject or any(f not in VALID for f in files):
+    if reject or any(f not in VALID + [CLASS_FILES[c] for c in ACCEPTED_CLASSES] for f in files):
         return "ERR"
     listing = [f for f in opts if f.startswith("--list-")]
     data = {k: "-" for k in DATA_KEYS}
@@ -990,7 +1728,7 @@ def doc_eval(toks, configs):
         return None
     if m in SPECIAL:
         cls = SPECIAL[m]
-    elif m in STD_METRICS or m in FIELD_METRICS:
+    elif m in STD_METRICS + FIELD_METRICS + THR_METRICS + Q_METRICS:
         cls = ("Sort" if "-sort" in opts else "Hist" if "-hist" in opts else "Standard") + ":" + m
         if "-sort" in opts and "-hist" in opts:
             return None
@@ -1002,6 +1740,13 @@ def doc_eval(toks, configs):
             out[DOC[f][1]] = v
     if "-acc" in opts:
         out["show_acc"] = "1"
+    if content is not None:
+        r = doc_defaults(m, opts, vals, content, cls)
+        if r == "ERR":
+            return "ERR"
+        out["thresholds"], out["quantiles"] = r
+    elif m in THR_METRICS + Q_METRICS:
+        out["thresholds"] = out["quantiles"] = "*"
     return "run %s out=%s;entry=%s;%s" % (dline, cls, DOC_ENTRY[ptype], ";".join("%s=%s" % (k, out[k]) for k in OUT_KEYS))
 
 
@@ -1026,6 +1771,8 @@ def _shuffled(toks, seed):
 
 def judge(op, impl_out, spec_out):
     a = op.split(" ")
+    if a[0] == "clilist":
+        return judge_list(op, impl_out)
     if a[0] in ("parse_numbers", "parse_numbers_sub"):
         s, is_date = a[1][2:], a[2] == "1"
         if impl_out == "HANG":
@@ -1056,19 +1803,27 @@ def judge(op, impl_out, spec_out):
                     "parse_numbers(%r, %s) = %s, documented meaning %s" % (s, is_date, impl_out, exp))
         return None
     kind, toks, configs = parse_op(op)
-    line = " ".join(["verif"] + toks) + ("".join("  [%s: %s]" % (n, " ".join(t)) for n, t in sorted(configs.items())))
+    ex = parse_extras(op)
+    line = " ".join(["verif"] + toks) + ("".join("  [%s: %r]" % (n, cfg_text(t)) for n, t in sorted(configs.items())))
     if kind is not None:
         if impl_out == "ERR":
             return None
         site = {"malformed-vector": "parse_numbers", "malformed-scalar": "scalar-option"}.get(kind, kind)
+        sig = {}
+        if kind.startswith("bad-file:"):
+            site, sig = "bad-file", {"class": kind[len("bad-file:"):]}
+            c = class_content(sig["class"])
+            line += "  [%s: %s]" % (CLASS_FILES[sig["class"]], "no such file" if c is None else
+                                   "a directory" if c == "dir" else "a NetCDF file with the single dimension x" if c == "nc"
+                                   else repr(c[:80]))
         if impl_out.startswith("EXC:"):
-            return ({"kind": "malformed-raises", "exc": impl_out[4:], "site": site},
+            return (dict({"kind": "malformed-raises", "exc": impl_out[4:], "site": site}, **sig),
                     "`%s` (%s) ends in an unhandled %s instead of an error message" % (line, kind, impl_out[4:]))
-        return ({"kind": "not-rejected", "site": site},
+        return (dict({"kind": "not-rejected", "site": site}, **sig),
                 "`%s` (%s) is not rejected: %s" % (line, kind, impl_out[:200]))
     if impl_out.startswith("EXC:"):
         return ({"kind": "exception", "exc": impl_out[4:]}, "`%s` raises %s" % (line, impl_out[4:]))
-    want = doc_eval(toks, configs)
+    want = doc_eval(toks, configs, ex["D"])
     if want is not None:
         ok, key = same(impl_out, want)
         if not ok:
@@ -1077,7 +1832,7 @@ def judge(op, impl_out, spec_out):
                     (line, key, impl_out, want))
     items, bad = split_groups([t for t in toks])
     flags = [it[1] for it in items if it[0] == "opt"]
-    allflags = flags + [it[1] for n in configs for it in split_groups(configs[n])[0] if it[0] == "opt"]
+    allflags = flags + [it[1] for n in configs for it in split_groups(cfg_tokens(configs[n]))[0] if it[0] == "opt"]
     distinct = len(set(allflags)) == len(allflags) and not ("-c" in allflags and "-C" in allflags) and not bad
     if distinct and not impl_out.startswith("E"):
         seed = zlib.crc32(op.encode())
@@ -1085,37 +1840,33 @@ def judge(op, impl_out, spec_out):
         alt = _shuffled(toks, seed)
         if alt is not None:
             try:
-                got = run_cli(alt, configs)
+                got = run_cli(alt, configs, ex)
             except Exception as e:
                 got = "EXC:" + type(e).__name__
             if not same(got, impl_out)[0] or not same(impl_out, got)[0]:
                 return ({"kind": "order"}, "option order matters:\n  `%s` -> %s\n  `%s` -> %s" %
                         (line, impl_out, " ".join(["verif"] + alt), got))
-        # metamorphic 2: arguments read through --config act as if given inline
+        # metamorphic 2: arguments read through --config act as if given inline AFTER the arguments of the command
+        # line (file names included), however they are spread over the lines of the file
         flat = lambda its: [t for it in its for t in ([it[1]] if it[0] == "file" or it[2] is None else [it[1], it[2]])]
         if configs:
             ctoks, ccfg = toks, configs
-            inl, i = [], 0
-            while i < len(toks):
-                if toks[i] == "--config" and i + 1 < len(toks):
-                    inl += configs.get(toks[i + 1], [])
-                    i += 2
-                else:
-                    inl.append(toks[i])
-                    i += 1
+            inl = inline_config(toks, configs)
             got_cfg = impl_out
         else:
-            # move the trailing half of the option groups into a config file
+            # move the trailing half of the arguments (options and files, one per line, or all on one line) into a
+            # config file
             k = len(items) // 2
             inl = toks
-            tail = [it for it in items[k:] if it[0] == "opt"]
-            keep = [it for it in items[k:] if it[0] == "file"]
-            ctoks, ccfg = flat(items[:k]) + ["--config", "m.cfg"] + flat(keep), {"m.cfg": flat(tail)}
+            tail = [flat([it]) for it in items[k:]]
+            sep = ["^"] if seed % 2 else []
+            ctoks = flat(items[:k]) + ["--config", "m.cfg"]
+            ccfg = {"m.cfg": [t for j, g in enumerate(tail) for t in (sep if j else []) + g]}
             got_cfg = None
         try:
-            got_inline = run_cli(inl, {}) if configs else impl_out
+            got_inline = run_cli(inl, {}, ex) if configs else impl_out
             if got_cfg is None:
-                got_cfg = run_cli(ctoks, ccfg)
+                got_cfg = run_cli(ctoks, ccfg, ex)
         except Exception as e:
             got_inline, got_cfg = "EXC:" + type(e).__name__, got_cfg or impl_out
         if not same(got_cfg, got_inline)[0] or not same(got_inline, got_cfg)[0]:
@@ -1130,12 +1881,42 @@ def nontrivial(op, out):
         return False
     if op.startswith("parse_numbers"):
         return out.count(",") >= 1 and out != "HANG"
+    if op.startswith("clilist "):
+        return not out.startswith("RUN:") and out.count("\\n") >= 3
     _, toks, configs = parse_op(op)
     alltoks = toks + [t for c in configs.values() for t in c]
+    if " D=" in op and ("thresholds=-;" not in out or "quantiles=-;" not in out):
+        return True
     return any(t in DOC and DOC[t][0] in ("data", "out") for t in alltoks)
 
 
+def _shrink_list(op):
+    """smaller listing scenarios: one --list-* flag, one subset option less, one file less"""
+    scen = _list_scen_of(op)
+    args = scen["args"]
+    groups, i = [], 0
+    while i < len(args):
+        n = 1 if args[i].startswith("--list-") else 2
+        groups.append(args[i:i + n])
+        i += n
+    lists = [g for g in groups if g[0].startswith("--list-")]
+    subs = [g for g in groups if not g[0].startswith("--list-")]
+    flat = lambda gs: [t for g in gs for t in g]
+    for g in lists:
+        if len(lists) > 1:
+            yield _list_op(dict(scen, args=flat([g] + subs)))
+    for k in range(len(subs)):
+        yield _list_op(dict(scen, args=flat(lists + subs[:k] + subs[k + 1:])))
+    for k in range(len(scen["files"])):
+        if len(scen["files"]) > 1:
+            yield _list_op(dict(scen, files=scen["files"][:k] + scen["files"][k + 1:]))
+
+
 def shrink(op):
+    if op.startswith("clilist "):
+        for x in _shrink_list(op):
+            yield x
+        return
     if not op.startswith("argv "):
         return
     _, toks, configs = parse_op(op)
@@ -1144,12 +1925,16 @@ def shrink(op):
         return
     flat = lambda its: [t for it in its for t in ([it[1]] if it[0] == "file" or it[2] is None else [it[1], it[2]])]
     base = [it for it in items if it[0] == "file" or it[1] == "-m"]
+    dtok = [t[2:] for t in op.split(" ")[4:] if t.startswith("D=")]
+    dtok = dtok[0] if dtok else None
+    if " B=" in op:
+        return
     for k in range(len(items)):            # smallest first: files, -m and one option group
         if items[k][0] == "opt" and items[k][1] != "-m":
-            yield mkop("argv", flat(base + [items[k]]), {})
+            yield mkop("argv", flat(base + [items[k]]), {}, data=dtok)
     for k in range(len(items)):
         if items[k][0] == "opt" and items[k][1] != "-m":
-            yield mkop("argv", flat(items[:k] + items[k + 1:]), {})
+            yield mkop("argv", flat(items[:k] + items[k + 1:]), {}, data=dtok)
 
 
 def extra_evidence(rows):
@@ -1163,5 +1948,16 @@ def extra_evidence(rows):
                     flags[t] = flags.get(t, 0) + 1
             st = r["impl"].split(" ")[0]
             stages[st] = stages.get(st, 0) + 1
+    lists, classes = {}, {}
+    for r in rows:
+        if r["op"].startswith("clilist "):
+            k = r["op"].split(" ")[1] + (" ERR" if r["impl"].startswith("RUN:") else "")
+            lists[k] = lists.get(k, 0) + 1
+        elif r["op"].startswith("argvbad bad-file:"):
+            k = r["op"].split(" ")[1][9:] + " -> " + r["impl"].split(" ")[0]
+            classes[k] = classes.get(k, 0) + 1
     return {"input_distribution": {"flag_counts": flags, "cli_outcomes": stages,
-                                   "with_config": sum(1 for r in rows if "--config" in r["op"])}}
+                                   "with_config": sum(1 for r in rows if "--config" in r["op"]),
+                                   "multi_line_config": sum(1 for r in rows if "|^" in r["op"] or "~^" in r["op"]),
+                                   "with_dataset_content": sum(1 for r in rows if " D=" in r["op"]),
+                                   "listings": lists, "bad_file_classes": classes}}
